@@ -4,6 +4,7 @@
    lists of values on the grid. *)
 From Coq Require Import List Reals QArith.
 From FDAV Require Import Base.Num Base.Vec Base.Quad Model.Simpson Lemmas.Vec Lemmas.Quad Lemmas.Gram Lemmas.Simpson.
+From FDAV Require Import Gen.Helpers Lemmas.GenHelpers.
 Import ListNotations.
 Local Open Scope R_scope.
 
@@ -112,6 +113,17 @@ Proof. exact gram_sum_psd. Qed.
 Print Assumptions C08_gram_sum_psd.
 
 (* non-vacuity on a non-uniform 4-point grid *)
+(* ---------- the quadrature weights as TRANSLATED from /repo/FDApy/misc/utils.py on this run (Gen/Helpers.v) ----------
+   _integration_weights(x, method="trapz"), as the source reads now, is the weight vector of the trapezoid rule:
+   integration agrees with the source's own quadrature weights, for every grid with at least two points. *)
+Theorem C08_source_trapz_weights_are_model : forall x, (2 <= length x)%nat -> gen_trapz_weights opsR x = trapz_w opsR x.
+Proof. exact gen_trapz_weights_is_model. Qed.
+Print Assumptions C08_source_trapz_weights_are_model.
+Theorem C08_source_trapz_weights : forall x y, (2 <= length x)%nat -> length x = length y ->
+  trapz opsR x y = dot opsR (gen_trapz_weights opsR x) y.
+Proof. exact source_trapz_weights. Qed.
+Print Assumptions C08_source_trapz_weights.
+
 Local Close Scope R_scope.
 Local Open Scope Q_scope.
 Example C08_example :
